@@ -418,3 +418,118 @@ def from_grammar_order(repo, res, rule="MPT"):
         res.check(after, rule, f"{rule}:{fq}:check_subword_spaces:after-expansion", "check_subword_spaces runs after the loop that expands definitions into each other" if after else "check_subword_spaces runs BEFORE the definitions are expanded into each other: literals that come together only through references are not seen as adjacent", f"{fn.file}:{c['l']}")
     # definitions are collected before any use: the duplicate check + map fill precede the first pass
     return {"assigns": assigns, "order": order}
+
+
+# ---- `Adjacent literals in a subword`: the check wherever its parts live ---------------------------------------------------------
+def subword_spaces_core(repo):
+    """The adjacency test behind Error::SubwordSpaces, located by what it does rather than by where it stands (it may be written in
+    do_check_subword_spaces or in a helper of the module): a function of check.rs that calls BOTH expr_get_tail and expr_get_head,
+    on the two members of each adjacent pair of one children list (windows(2), or zip with skip(1)), keeps the pairs whose tail and
+    head are both `Expr::Terminal`, and hands out the left literal's span first and the right literal's span second; and the error
+    is built from exactly those two, in that order.  Returns a dict of findings (each True / False) plus a text."""
+    out = {"found": False}
+    core = None
+    for f in repo.fns_in("check"):
+        names = {P.last(c["func"]["path"]) for c in A.walk(f.body) if c["k"] == "Call" and c["func"]["k"] == "Path"}
+        if {"expr_get_tail", "expr_get_head"} <= names:
+            core = f
+            break
+    if core is None:
+        return out
+    out["found"] = True
+    out["core"] = core.qname
+    envs = A.collect_envs(core)
+    tails = [c for c in P.find_calls(core.body, names={"expr_get_tail"})]
+    heads = [c for c in P.find_calls(core.body, names={"expr_get_head"})]
+    if len(tails) != 1 or len(heads) != 1:
+        out["why"] = f"{len(tails)} tail calls, {len(heads)} head calls"
+        return out
+    L = A.resolve(tails[0]["args"][-1], envs.get(id(tails[0])))
+    R = A.resolve(heads[0]["args"][-1], envs.get(id(heads[0])))
+    strip = lambda p: p[1] if p[0] in ("deref", "ref") else p
+    L, R = strip(L), strip(R)
+
+    def member(p):
+        """(source list term, position 0/1) of a pair member, or None"""
+        if p[0] == "slice" and p[1][0] == "elem":
+            src = p[1][1]
+            while src[0] == "mcall" and src[1] in ("map", "find_map", "filter", "iter"):
+                src = src[2]
+            if src[0] == "mcall" and src[1] == "windows" and src[3] and src[3][0] == ("lit", "2"):
+                return ("windows", src[2]), p[2]
+        if p[0] == "proj" and p[1][0] == "elem":
+            src = p[1][1]
+            while src[0] == "mcall" and src[1] in ("map", "find_map", "filter"):
+                src = src[2]
+            if src[0] == "mcall" and src[1] == "zip" and src[3]:
+                a, b = src[2], src[3][0]
+                while a[0] == "mcall" and a[1] in ("iter", "into_iter"):
+                    a = a[2]
+                skipped = False
+                while b[0] == "mcall" and b[1] in ("iter", "into_iter", "skip"):
+                    if b[1] == "skip":
+                        skipped = b[3] and b[3][0] == ("lit", "1")
+                    b = b[2]
+                if skipped and a == b:
+                    return ("zip", a), p[2]
+        return None
+
+    ml, mr = member(L), member(R)
+    out["pairs"] = bool(ml and mr and ml[0] == mr[0] and ml[1] == 0 and mr[1] == 1)
+    src = ml[0][1] if ml else ("none",)
+    while src[0] in ("ref", "deref"):
+        src = src[1]
+    out["over_children"] = (src[0] == "bind" and P.last(src[1]) == "Sequence" and src[2] == "children") or src[0] == "param"
+    # both Terminal: a 2-tuple pattern of Expr::Terminal over (tail .., head ..)
+    both = False
+    span_binds = None
+    for n in A.walk(core.body):
+        pat, scr = None, None
+        if n["k"] == "If" and n["cond"]["k"] == "Let":
+            pat, scr = n["cond"]["pat"], n["cond"]["expr"]
+        elif n["k"] == "Local" and n.get("else") is not None:
+            pat, scr = n["pat"], n.get("init")
+        elif n["k"] == "Match":
+            for arm in n["arms"]:
+                if arm["pat"]["k"] == "PTuple":
+                    pat, scr = arm["pat"], n["scrut"]
+                    break
+        if pat is None or pat["k"] != "PTuple" or len(pat["elems"]) != 2 or scr is None or scr["k"] != "Tuple" or len(scr["elems"]) != 2:
+            continue
+        kinds = [P.last(v[0]) for e in pat["elems"] for v in A.pat_variants(e)]
+        s0 = A.show(A.resolve(scr["elems"][0], envs.get(id(scr)) or envs.get(id(n))))
+        s1 = A.show(A.resolve(scr["elems"][1], envs.get(id(scr)) or envs.get(id(n))))
+        if kinds == ["Terminal", "Terminal"] and "expr_get_tail" in s0 and "expr_get_head" not in s0 and "expr_get_head" in s1 and "expr_get_tail" not in s1:
+            both = True
+    out["both_terminal"] = both
+    # where the error is built
+    raiser = None
+    for f in repo.fns_in("check"):
+        if list(P.ctor_sites(f.body, "Error::SubwordSpaces")):
+            raiser = f
+    out["raiser"] = raiser.qname if raiser else None
+    order = False
+    if raiser is not None:
+        renvs = A.collect_envs(raiser)
+        s = list(P.ctor_sites(raiser.body, "Error::SubwordSpaces"))[0]
+        if s["k"] == "Call" and len(s["args"]) >= 2:
+            a0 = A.resolve(s["args"][0], renvs.get(id(s)))
+            a1 = A.resolve(s["args"][1], renvs.get(id(s)))
+            t0, t1 = A.show(a0), A.show(a1)
+            direct = "expr_get_tail" in t0 and "expr_get_head" not in t0 and "expr_get_head" in t1 and "expr_get_tail" not in t1
+            # or: components 0 and 1 of one pair value (what a helper returned / what a find_map found) ...
+            q0, q1 = strip(a0), strip(a1)
+            positional = q0[0] == "proj" and q1[0] == "proj" and q0[2] == 0 and q1[2] == 1 and q0[1] == q1[1] and (raiser is core or core.name in A.show(q0[1]))
+            # ... where the pair is built, inside the core, as (left literal's span, right literal's span)
+            inner = False
+            for tp in A.walk(core.body):
+                if tp["k"] == "Tuple" and len(tp["elems"]) == 2:
+                    x0 = A.show(A.resolve(tp["elems"][0], envs.get(id(tp))))
+                    x1 = A.show(A.resolve(tp["elems"][1], envs.get(id(tp))))
+                    if "span" in x0 and "span" in x1 and "expr_get_tail" in x0 and "expr_get_head" not in x0 and "expr_get_head" in x1 and "expr_get_tail" not in x1:
+                        inner = True
+            order = (direct and raiser is core) or (positional and inner)
+    out["order"] = order
+    out["ok"] = bool(out.get("pairs") and out.get("over_children") and both and order)
+    out["why"] = f"core in {core.qname}: adjacent pairs of one children list={out.get('pairs')} over a Sequence's children={out.get('over_children')} both Terminal={both}; error built in {out['raiser']} from (left tail span, right head span)={order}"
+    return out
